@@ -10,7 +10,7 @@
    n1/n2 = number of steps the iterator made before reporting done.                                  *)
 EXTENDS Emit
 
-CONSTANTS MaxCap, Alphabet, Types     \* Types \subseteq {8, 32}: element type of the instantiation
+CONSTANTS MaxCap, Alphabet, Types     \* Types \subseteq {8, 32, 64}: element type of the instantiation (octets, uint32_t, double)
 
 VARIABLES cap, ty, head, tail, data, ovr, q, ev
 vars == <<cap, ty, head, tail, data, ovr, q>>
